@@ -805,6 +805,16 @@ func (s *sim) step(ev string) {
 				s.deliver(a, f, true)
 			}
 		}
+	case "zeroresp": // an authentic, newest path_response that answers nothing: cookie of eight zero bytes (the
+		// value of a cookie field that was never filled in), from a; whether or not a challenge is outstanding
+		if d := s.pWrite(); d != nil {
+			if f := s.reseal(d, func(r *rec) {
+				r.typ = ctRRC
+				r.payload = []byte{rrcResp, 0, 0, 0, 0, 0, 0, 0, 0}
+			}); f != nil {
+				s.deliver(a, f, true)
+			}
+		}
 	case "flip": // genuine fresh record with one ciphertext bit flipped (right CID), original lost
 		if d := s.pWrite(); d != nil {
 			f := append([]byte(nil), d...)
